@@ -9,17 +9,20 @@ for pid in sorted(cfg["properties"]):
     if pid not in src["claimed"]:
         continue
     c = src["claimed"][pid]
-    checks.append({
+    entry = {
         "property_id": pid,
         "quick_cmd": "./check %s --tier quick" % pid,
-        "thorough_cmd": "./check %s --tier thorough" % pid,
         "evidence_file": "/verif/evidence/%s.json" % pid,
         "replay_cmd_template": "./check %s --replay {path}" % pid,
         "engine": c.get("engine", "kani-cbmc"),
         "level_claimed": {"category": "model_checking", "text": c["text"], "design_ref": c.get("design_ref", "DESIGN.md §5 " + pid)},
         "level_note": c["note"],
         "technique": c.get("technique", "bounded model checking of the compiled Rust code (Kani 0.68 -> CBMC 6.11, SAT) over symbolic inputs, unwinding assertions on; counterexamples replayed natively"),
-    })
+    }
+    # a thorough command is only registered once a full thorough run has been seen to finish (exit 0) on the unchanged tree
+    if cfg["properties"][pid].get("thorough_validated"):
+        entry["thorough_cmd"] = "./check %s --tier thorough" % pid
+    checks.append(entry)
 na = [{"property_id": k, "reason": v} for k, v in sorted(src["not_applicable"].items()) if k not in src["claimed"] or k not in cfg["properties"]]
 m = {
     "version": 1,
